@@ -325,4 +325,44 @@ theorem fromClocks_after (m : Machine) (t y col : Nat) (hy : y < 192) (hc : col 
     unfold fcLit Blocks.idx attrCols <;> (repeat' split) <;> dsimp only <;> omega
 
 
+/-! ### runs of the controller model -/
+
+/-- no poke of the list hits the first 6912 bytes of the 0x4000 / 0xC000 windows -/
+def NoScreenPoke (ops : List Op) : Prop := ∀ a v, Op.poke a v ∈ ops → ¬ inScreenWindow a
+
+theorem step_good (fixed : Bool) (c : Ctl) (h : c.WF) (hc : c.Coherent) (op : Op)
+    (hop : fixed = true ∨ ∀ a v, op = .poke a v → ¬ inScreenWindow a) :
+    (c.step fixed op).WF ∧ (c.step fixed op).Coherent := by
+  cases op with
+  | wait clk => exact ⟨(waitInternal_same c h clk).wf, (waitInternal_same c h clk).coherent hc⟩
+  | cpuWrite a v clk => exact write_good c h hc a v clk
+  | tapeWrite a v => exact writeInternal_good c h hc a v
+  | set7ffd v => exact write7ffd_good c h hc v
+  | out p v => exact writeIo_good c h hc p v
+  | loadScr bs => exact loadScr_good c h hc bs
+  | loadPages ps => exact loadPages_good c h ps
+  | setBorder col => exact ⟨(setBorderColor_same c h 0 col).wf, (setBorderColor_same c h 0 col).coherent hc⟩
+  | poke a v =>
+    rcases hop with rfl | hno
+    · exact poke_fixed_good c h hc a v
+    · cases fixed
+      · exact poke_unfixed_good c h hc a v (hno a v rfl)
+      · exact poke_fixed_good c h hc a v
+
+theorem run_good (fixed : Bool) : ∀ (ops : List Op) (c : Ctl), c.WF → c.Coherent →
+    (fixed = true ∨ NoScreenPoke ops) → (c.run fixed ops).WF ∧ (c.run fixed ops).Coherent := by
+  intro ops
+  induction ops with
+  | nil => intro c h hc _; exact ⟨h, hc⟩
+  | cons op ops ih =>
+    intro c h hc hop
+    obtain ⟨w, k⟩ := step_good fixed c h hc op (by
+      rcases hop with hf | hn
+      · exact Or.inl hf
+      · exact Or.inr (fun a v he => hn a v (by rw [he]; exact List.mem_cons_self)))
+    exact ih _ w k (by
+      rcases hop with hf | hn
+      · exact Or.inl hf
+      · exact Or.inr (fun a v hm => hn a v (List.mem_cons_of_mem _ hm)))
+
 end ZxVerif.Video
